@@ -637,3 +637,94 @@ Proof.
   apply collision_visible; try assumption.
   unfold two_dkey. rewrite py_eqb_pair. cbn [fst snd]. rewrite Ht, He. reflexivity.
 Qed.
+
+(* ------------------------------------------------------------------ *)
+(* the key's size component determines the finite map index -> size     *)
+Lemma list_eqb_nat_refl : forall s, list_eqb Nat.eqb s s = true.
+Proof. induction s as [|x s IH]; cbn [list_eqb]; [reflexivity|]. rewrite Nat.eqb_refl, IH. reflexivity. Qed.
+
+(* on atomic values Python's == is decided by a canonical code *)
+Inductive pcode := CNum (z : Z) | CStr (s : list nat) | CNone | CObj (n : nat).
+Definition code_of (v : pyval) : pcode :=
+  match v with
+  | PInt z | PFloat z => CNum z
+  | PBool b => CNum (if b then 1 else 0)
+  | PStr s => CStr s
+  | PObj n => CObj n
+  | _ => CNone
+  end.
+
+Lemma py_eqb_simple_code : forall a b, simple a = true -> simple b = true ->
+  (py_eqb a b = true <-> code_of a = code_of b).
+Proof.
+  intros a b Ha Hb.
+  destruct a; try discriminate; destruct b; try discriminate; cbn [py_eqb num_of code_of];
+    split; intros H; try discriminate; try reflexivity;
+    first [ apply Z.eqb_eq in H; congruence
+          | apply Nat.eqb_eq in H; congruence
+          | apply list_eqb_nat_eq in H; congruence
+          | injection H as H; rewrite H;
+            first [apply Z.eqb_refl | apply Nat.eqb_refl | apply list_eqb_nat_refl] ].
+Qed.
+
+Lemma py_eqb_simple_sym : forall a b, simple a = true -> simple b = true ->
+  py_eqb a b = true -> py_eqb b a = true.
+Proof.
+  intros a b Ha Hb H. apply (py_eqb_simple_code b a Hb Ha). symmetry. apply (py_eqb_simple_code a b Ha Hb). exact H.
+Qed.
+
+Lemma py_eqb_simple_trans : forall a b c, simple a = true -> simple b = true -> simple c = true ->
+  py_eqb a b = true -> py_eqb b c = true -> py_eqb a c = true.
+Proof.
+  intros a b c Ha Hb Hc H1 H2. apply (py_eqb_simple_code a c Ha Hc).
+  transitivity (code_of b); [apply (py_eqb_simple_code a b Ha Hb) | apply (py_eqb_simple_code b c Hb Hc)]; assumption.
+Qed.
+
+Lemma py_eqb_simple_congr : forall k1 k2 k, simple k1 = true -> simple k2 = true -> simple k = true ->
+  py_eqb k1 k2 = true -> py_eqb k1 k = py_eqb k2 k.
+Proof.
+  intros k1 k2 k H1 H2 Hk He.
+  destruct (py_eqb k1 k) eqn:E1; destruct (py_eqb k2 k) eqn:E2; try reflexivity.
+  - rewrite <- E2. symmetry.
+    apply (py_eqb_simple_trans k2 k1 k H2 H1 Hk); [apply py_eqb_simple_sym; assumption | exact E1].
+  - rewrite <- E1.
+    apply (py_eqb_simple_trans k1 k2 k H1 H2 Hk); assumption.
+Qed.
+
+Lemma item_eq_parts : forall a b, item_ok a = true -> item_ok b = true -> py_eqb a b = true ->
+  py_eqb (item_key a) (item_key b) = true /\ py_eqb (item_val a) (item_val b) = true /\
+  simple (item_key a) = true /\ simple (item_key b) = true.
+Proof.
+  intros a b Ha Hb He.
+  destruct a as [| | | | | |[|k1 [|v1 [|? ?]]]| | |]; try discriminate.
+  destruct b as [| | | | | |[|k2 [|v2 [|? ?]]]| | |]; try discriminate.
+  cbn [item_ok] in Ha, Hb. rewrite py_eqb_pair in He. apply andb_true_iff in He. destruct He as [Hk Hv].
+  cbn [item_key item_val]. repeat split; assumption.
+Qed.
+
+(* equal tuple(size_dict.items()) components (Python ==)  =>  the same finite map index -> size *)
+Theorem items_determine_binding : forall l m,
+  forallb item_ok l = true -> forallb item_ok m = true ->
+  pylist_eqb l m = true ->
+  forall k, simple k = true -> lookup_agree (dict_get l k) (dict_get m k).
+Proof.
+  unfold pylist_eqb.
+  induction l as [|a l IH]; intros [|b m] Hl Hm He k Hk; cbn [list_eqb] in He; try discriminate.
+  - exact I.
+  - cbn [forallb] in Hl, Hm. apply andb_true_iff in Hl, Hm, He.
+    destruct Hl as [Ha Hl], Hm as [Hb Hm], He as [Hab He].
+    destruct (item_eq_parts a b Ha Hb Hab) as [Hkk [Hvv [Hs1 Hs2]]].
+    cbn [dict_get]. rewrite (py_eqb_simple_congr _ _ k Hs1 Hs2 Hk Hkk).
+    destruct (py_eqb (item_key b) k); [exact Hvv | exact (IH m Hl Hm He k Hk)].
+Qed.
+
+(* tuple(size_dict.values()) does not: same value sequence, different binding (seeded change G16) *)
+Definition g16_items1 : list pyval :=
+  [PTuple [PStr [97%nat]; PInt 2]; PTuple [PStr [98%nat]; PInt 50]; PTuple [PStr [99%nat]; PInt 3]; PTuple [PStr [100%nat]; PInt 40]].
+Definition g16_items2 : list pyval :=
+  [PTuple [PStr [98%nat]; PInt 2]; PTuple [PStr [97%nat]; PInt 50]; PTuple [PStr [100%nat]; PInt 3]; PTuple [PStr [99%nat]; PInt 40]].
+Theorem values_lose_binding :
+  py_eqb (values_of_items g16_items1) (values_of_items g16_items2) = true /\
+  ~ lookup_agree (dict_get g16_items1 (PStr [97%nat])) (dict_get g16_items2 (PStr [97%nat])) /\
+  py_eqb (PTuple g16_items1) (PTuple g16_items2) = false.
+Proof. repeat split; vm_compute; discriminate || reflexivity. Qed.
